@@ -160,6 +160,12 @@ def run_config(pid, hname, cfg, tier, seed, opts):
                 r, m = c.model()
                 if r == 'sat':
                     res['candidates'].append({'ob': name, 'values': W.model_inputs(m), 'path': res['paths'], 'detail': detail})
+                    # the solver's model tends to give distinct inputs equal values (which can hide an identity that fails);
+                    # generic points of the same path are replayed as well
+                    for _ in range(2):
+                        sm = W.sample(tries=6, solver_fallback=False)
+                        if sm is not None:
+                            res['candidates'].append({'ob': name, 'values': sm[0], 'path': res['paths'], 'detail': detail})
                 elif r == 'unknown':
                     res['inconclusive'].append({'why': 'unknown', 'ob': name})
             else:
@@ -390,16 +396,23 @@ def main(argv=None):
     violations, known_hits, inconc = [], {}, []
     for r in results:
         for c in r['confirmed']:
-            hit = None
-            for k in known:
-                names = [c['ob']] + [f['ob'] for f in c['replay_failures']]
-                if any(match_known(k, pid, r['harness'], r['cfg'], n) for n in names):
-                    hit = k
-                    break
-            if hit is not None:
-                known_hits.setdefault(hit['id'], [hit, 0])[1] += 1
-            else:
+            # every obligation that fails on the real code in this replay is looked up on its own: a listed finding never
+            # hides a different failure of the same configuration
+            names = [f['ob'] for f in c['replay_failures']] or [c['ob']]
+            hits, fresh = {}, []
+            for n in names:
+                k = next((k for k in known if match_known(k, pid, r['harness'], r['cfg'], n)), None)
+                if k is None:
+                    fresh.append(n)
+                else:
+                    hits[k['id']] = k
+            if fresh:
+                if c['ob'] not in fresh:
+                    c = dict(c, ob=fresh[0])
                 violations.append((r, c))
+            else:
+                for hid, k in hits.items():
+                    known_hits.setdefault(hid, [k, 0])[1] += 1
         for i in r['inconclusive']:
             inconc.append((r, i))
     rdir = os.path.join(VERIF, 'replays', pid)
